@@ -42,6 +42,8 @@ impl<C: AiClient + 'static> ValidatorAsync for CheckAiValidator<C> {
         &self,
         context: Arc<ValidationContext>,
     ) -> anyhow::Result<HashMap<PathBuf, Vec<Violation>>> {
+        #[cfg(feature = "verif")]
+        use crate::verif_hooks::JoinSet;
         let mut violations = HashMap::new();
         let mut tasks = JoinSet::new();
         for (file_path, file_blocks) in &context.blocks {
